@@ -114,6 +114,27 @@ pub fn k1_main() -> i32 {
     0
 }
 
+/// `harness k3`: known finding K3 — a deeply nested VALUE (not expression) bound in a context exhausts the stack
+pub fn k3_main() -> i32 {
+    let h = std::thread::Builder::new()
+        .stack_size(8 << 20)
+        .spawn(|| {
+            let mut v = Value::Int(1);
+            for _ in 0..400_000 {
+                v = Value::Tuple(vec![v]);
+            }
+            let mut ctx = HashMapContext::<DefaultNumericTypes>::new();
+            ctx.set_value("x".into(), v).unwrap();
+            let r = eval_with_context("typeof(x)", &ctx);
+            println!("returned: {}", r.is_ok());
+            // the value is leaked on purpose: dropping it recurses as well
+            std::mem::forget(ctx);
+        })
+        .unwrap();
+    let _ = h.join();
+    0
+}
+
 impl Property for C01 {
     fn id(&self) -> &'static str {
         "C01"
@@ -326,7 +347,18 @@ impl Property for C01 {
                 notes.push("k1-did-not-abort".into());
             }
         }
-        (worst_cases().len() + 1, viol, notes)
+        // known finding K3: a value nested 400 000 levels deep, bound through the API, evaluated on an 8 MiB stack
+        if let Ok(o) = std::process::Command::new(&exe).arg("k3").output() {
+            if !o.status.success() {
+                viol.push((
+                    "K3: x = ((((…1…)))) nested 400 000 levels deep (bound with set_value); typeof(x)".into(),
+                    format!("K3: the process aborts on stack exhaustion in the recursive Clone of the value ({:?})", o.status),
+                ));
+            } else {
+                notes.push("k3-did-not-abort".into());
+            }
+        }
+        (worst_cases().len() + 2, viol, notes)
     }
 }
 
